@@ -52,6 +52,7 @@ class Cfg:
         self.oob = False                     # deliberately out-of-range (at a i) now and then (the run ends in the trap)
         self.at_on_call = False              # (at (f ..) i): array operand that is neither a variable nor a literal
         self.for_bound_mutated = False       # a for loop whose body assigns a variable its range bound reads
+        self.literal_first_effect = True     # a call as FIRST element of an array literal (the compile-time evaluator evaluates it twice)
         self.__dict__.update(kw)
 
 
@@ -175,8 +176,13 @@ class Gen:
         r = self.r
         n = r.randrange(1, 5) if n is None else n
         es, eff = [], 0
-        for _ in range(n):
-            e = self.gen_expr('int', max(depth - 1, 0), dict(sc, in_operand=True), pure=pure or (not self.c.multi_effect_args and eff >= 1))
+        for k in range(n):
+            e = self.gen_expr('int', max(depth - 1, 0), dict(sc, in_operand=True),
+                              pure=pure or (not self.c.multi_effect_args and eff >= 1) or (k == 0 and not self.c.literal_first_effect))
+            if k == 0 and calls_any(e) and not self.c.literal_first_effect:
+                e = self.gen_expr('int', 0, dict(sc, in_operand=True), True)       # a variable or a literal
+            if k == 0 and calls_any(e):
+                self.f('literal_first_call')
             if has_effect(e, sc['fns_by_name']):
                 eff += 1
             es.append(e)
@@ -491,6 +497,26 @@ def mentions(e, x):
         return mentions(e[1], x) or mentions(e[2], x)
     if t == 'len':
         return mentions(e[1], x)
+    return False
+
+
+def calls_any(e):
+    """does the expression contain a call (effectful or not)"""
+    t = e[0]
+    if t == 'call':
+        return True
+    if t == 'un':
+        return calls_any(e[2])
+    if t == 'bin':
+        return calls_any(e[2]) or calls_any(e[3])
+    if t == 'cond':
+        return any(calls_any(a) for a in e[1:])
+    if t == 'arr':
+        return any(calls_any(a) for a in e[1])
+    if t == 'at':
+        return calls_any(e[1]) or calls_any(e[2])
+    if t == 'len':
+        return calls_any(e[1])
     return False
 
 
